@@ -87,6 +87,7 @@ type Engine struct {
 	jsonVals   []value
 	events     [][2]value
 	pending    []func()
+	panicStack []string
 
 	// configuration
 	Params    map[string]int
@@ -96,6 +97,7 @@ type Engine struct {
 	Unwind    int
 	EntryName string
 	KFOpen    map[string]bool
+	Overrides map[string]*ssa.Function
 
 	// results
 	Paths        int
@@ -669,6 +671,9 @@ func (e *Engine) violation(label, kf string, inRegion bool, panicMsg string, q [
 	v := Violation{Label: label, KF: kf, InRegion: inRegion, Panic: panicMsg, Trail: e.trailChoices(), API: e.concretiseAPI(), Entry: e.EntryName, EnvChoice: e.envChoice}
 	if panicMsg != "" {
 		v.Stack = stackStrings()
+		if len(e.panicStack) > 0 {
+			v.Stack = e.panicStack
+		}
 	}
 	e.Violations = append(e.Violations, v)
 }
@@ -766,6 +771,7 @@ func (e *Engine) resetRun() {
 	e.reachedNow = e.reachedNow[:0]
 	e.envChoice = false
 	e.pending = nil
+	e.panicStack = nil
 	e.rwReaders = map[*value]int{}
 	e.wgCount = map[*value]int{}
 	e.onceDone = map[*value]bool{}
